@@ -58,12 +58,26 @@ func stripFaults(p *plan.Plan) *plan.Plan {
 		for si := range q.Writers[wi].Sinks {
 			q.Writers[wi].Sinks[si].Faults = nil
 		}
+		for oi := range q.Writers[wi].Ops {
+			q.Writers[wi].Ops[oi].SrcFaults = nil
+		}
 	}
 	if q.Sched.Policy == "explicit" {
 		q.Sched.Policy = "random"
 		q.Sched.Choices = nil
 	}
 	return q
+}
+
+func hasSrcFaults(p *plan.Plan) bool {
+	for _, w := range p.Writers {
+		for _, o := range w.Ops {
+			if len(o.SrcFaults) > 0 {
+				return true
+			}
+		}
+	}
+	return false
 }
 
 func sinksOf(out *Outcome) [][][]byte {
@@ -111,7 +125,8 @@ func expand(ex *Executor, p *plan.Plan, res *Result, agg *Agg) []*plan.Plan {
 	var cases []*plan.Plan
 	switch e.Kind {
 	case "sinkfail":
-		if p.Twin {
+		if p.Twin && !hasSrcFaults(p) {
+			// the base run is the fault-free twin: no need to execute it again
 			twinKey, twinSinks = stripFaults(p).Hash(), sinksOf(out)
 		}
 		wo := out.W[idx]
